@@ -33,12 +33,31 @@ Proof.
 Qed.
 
 (* ---------- negation ---------- *)
-Lemma invert_sem f q q' o :
-  invert q = Ok q' -> (forall negs k v, q <> QInfo negs k v) -> holds f q' o = negb (holds f q o).
+Lemma acond3_collapse f a : match acond3 f a with Some b => b | None => false end = acond_holds f a.
 Proof.
-  destruct q; simpl; intro H; inversion H; subst; intro NI.
+  destruct a as [attr [v|]|attr v|attr v|attr v|attr]; simpl; try reflexivity;
+    destruct (lookup attr (fstrs f)) as [[x|]|]; reflexivity.
+Qed.
+
+Lemma attrs_defined_acond3 f a : attrs_defined f = true -> acond3 f a <> None.
+Proof.
+  intro D.
+  assert (G : forall attr, lookup attr (fstrs f) <> Some None).
+  { intros attr E. apply lookup_in in E. unfold attrs_defined in D. rewrite forallb_forall in D.
+    specialize (D _ E). simpl in D. congruence. }
+  destruct a as [attr [v|]|attr v|attr v|attr v|attr]; simpl; try congruence;
+    (destruct (lookup attr (fstrs f)) as [[x|]|] eqn:E; [congruence | exfalso; apply (G attr); exact E | congruence]).
+Qed.
+
+Lemma invert_sem f q q' o :
+  invert q = Ok q' ->
+  (forall negs k v, q <> QInfo negs k v) ->
+  (forall negs a, q = QAttr negs a -> acond3 f a <> None) ->
+  holds f q' o = negb (holds f q o).
+Proof.
+  destruct q; simpl; intro H; inversion H; subst; intros NI NA.
   - simpl. destruct inv; destruct (existsb _ _); reflexivity.
-  - reflexivity.
+  - simpl. specialize (NA negs a eq_refl). destruct (acond3 f a); [reflexivity | congruence].
   - exfalso. eapply NI. reflexivity.
 Qed.
 
@@ -58,13 +77,14 @@ Proof.
   destruct k; simpl; [rewrite andb_true_r | rewrite orb_false_r]; reflexivity.
 Qed.
 
-Theorem compile_exact vr ci :
+Theorem compile_exact vr ci ca :
   (ci = true \/ fix_inverted_merge vr = true) ->
   forall p q f,
-    compile vr p = Ok q -> safe_with vr ci true true p = true -> wf_fit f = true ->
+    compile vr p = Ok q -> safe_with vr ci true true ca p = true -> wf_fit f = true ->
+    (ca = true \/ attrs_defined f = true) ->
     sem q f = eval p f.
 Proof.
-  intros Hci p. induction p as [path c k|a|k v|a IHa b IHb|a IHa b IHb|a IHa]; intros q f Hq Hs W; unfold sem in *.
+  intros Hci p. induction p as [path c k|a|k v|a IHa b IHb|a IHa b IHb|a IHa]; intros q f Hq Hs W Hca; unfold sem in *.
   - (* path comparison *)
     destruct path as [|n r]; simpl in Hq; [congruence|].
     destruct (leaf_of c k) as [leaf|e] eqn:EL; simpl in Hq; [|congruence].
@@ -72,7 +92,7 @@ Proof.
     change (QNamed n (named_path r leaf) false) with (named_path (n :: r) leaf).
     rewrite (named_path_sem f c k leaf EL (n :: r)) by (congruence || apply wf_fit_obj; exact W).
     reflexivity.
-  - simpl in Hq. inversion Hq. reflexivity.
+  - simpl in Hq. inversion Hq. subst q. simpl. apply acond3_collapse.
   - simpl in Hq. inversion Hq. subst q. simpl.
     rewrite <- (exists_unique_name (fun w => String.eqb w v) k (finfo f) (wf_fit_info f W)).
     reflexivity.
@@ -82,33 +102,38 @@ Proof.
     destruct (compile vr b) as [y|e] eqn:Eb; simpl in Hq; [|congruence].
     apply andb_true_iff in Hs. destruct Hs as [Hs Hj]. apply andb_true_iff in Hs. destruct Hs as [Hsa Hsb].
     rewrite (junction2_sem f vr ci JAnd x y q Hci Hq Hj _ (wf_fit_obj f W)). simpl.
-    rewrite (IHa x f eq_refl Hsa W), (IHb y f eq_refl Hsb W). reflexivity.
+    rewrite (IHa x f eq_refl Hsa W Hca), (IHb y f eq_refl Hsb W Hca). reflexivity.
   - (* or *)
     simpl in Hq, Hs.
     destruct (compile vr a) as [x|e] eqn:Ea; simpl in Hq; [|congruence].
     destruct (compile vr b) as [y|e] eqn:Eb; simpl in Hq; [|congruence].
     apply andb_true_iff in Hs. destruct Hs as [Hs Hj]. apply andb_true_iff in Hs. destruct Hs as [Hsa Hsb].
     rewrite (junction2_sem f vr ci JOr x y q Hci Hq Hj _ (wf_fit_obj f W)). simpl.
-    rewrite (IHa x f eq_refl Hsa W), (IHb y f eq_refl Hsb W). reflexivity.
+    rewrite (IHa x f eq_refl Hsa W Hca), (IHb y f eq_refl Hsb W Hca). reflexivity.
   - (* not *)
     simpl in Hq, Hs.
     destruct (compile vr a) as [x|e] eqn:Ea; simpl in Hq; [|congruence].
-    apply andb_true_iff in Hs. destruct Hs as [Hsa Hn]. simpl in Hn.
-    rewrite (invert_sem f x q _ Hq).
-    + rewrite (IHa x f eq_refl Hsa W). reflexivity.
+    apply andb_true_iff in Hs. destruct Hs as [Hs Hna]. apply andb_true_iff in Hs. destruct Hs as [Hsa Hn].
+    simpl in Hn. rewrite (invert_sem f x q _ Hq).
+    + rewrite (IHa x f eq_refl Hsa W Hca). reflexivity.
     + intros negs k v E. subst x. congruence.
+    + intros negs a' E. subst x. destruct Hca as [Hc | Hd].
+      * subst ca. simpl in Hna. congruence.
+      * apply attrs_defined_acond3. exact Hd.
 Qed.
 
 (* as a statement about result lists *)
-Theorem select_exact vr ci :
+Theorem select_exact vr ci ca :
   (ci = true \/ fix_inverted_merge vr = true) ->
   forall p q db,
-    compile vr p = Ok q -> safe_with vr ci true true p = true -> forallb wf_fit db = true ->
+    compile vr p = Ok q -> safe_with vr ci true true ca p = true -> forallb wf_fit db = true ->
+    (ca = true \/ forallb attrs_defined db = true) ->
     select q db = filter (eval p) db.
 Proof.
-  intros Hci p q db Hq Hs W. unfold select. apply filter_ext_in.
-  intros f Hf. apply (compile_exact vr ci Hci p q f Hq Hs).
-  rewrite forallb_forall in W. apply W. exact Hf.
+  intros Hci p q db Hq Hs W Hca. unfold select. apply filter_ext_in.
+  intros f Hf. apply (compile_exact vr ci ca Hci p q f Hq Hs).
+  - rewrite forallb_forall in W. apply W. exact Hf.
+  - destruct Hca as [Hc | Hd]; [left; exact Hc | right]. rewrite forallb_forall in Hd. apply Hd. exact Hf.
 Qed.
 
 (* each fit once, in database order: select is a sub-list *)
